@@ -58,6 +58,9 @@ let handle op args = match op, args with
   | "mul32", [a; w] -> hexnum_of_le (mul32 (le32_of_hexnum a) (z_of_hex w))
   | "shl", [a; n] -> hexnum_of_le (shl (le32_of_hexnum a) (z_of_hex n))
   | "shr", [a; n] -> hexnum_of_le (shr (le32_of_hexnum a) (z_of_hex n))
+  | "shl_g", [a; n] -> hexnum_of_le (shl_g (le32_of_hexnum a) (z_of_hex n))
+  | "shr_g", [a; n] -> hexnum_of_le (shr_g (le32_of_hexnum a) (z_of_hex n))
+  | "bits_g", [a] -> hex_of_z (ubits_g (le32_of_hexnum a))
   | "not", [a] -> hexnum_of_le (bnot (le32_of_hexnum a))
   | "neg", [a] -> hexnum_of_le (neg (le32_of_hexnum a))
   | "inc", [a] -> hexnum_of_le (inc (le32_of_hexnum a))
